@@ -108,6 +108,24 @@ StepQ(ln) ==
      /\ nv' = nv + Len(Failed(cs))
      /\ UNCHANGED <<tp, scen, up, srvc, terr>>
 
+\* blocking mode (scenario "blocking"): xcm_accept, xcm_receive, xcm_send and the final xcm_receive of the server side,
+\* with a blocking client in another process.  rets: result of each call, -2 = the watchdog fired inside it, -3 = not reached
+StepBq(ln) ==
+  LET stream == tp \in {"btcp", "btls"}
+      cs == <<
+        \* C04: blocking calls return once the awaited event has happened
+        Chk(\A i \in 1..4 : ln.rets[i] # -2, "C04.blocked", <<"call", ln.phase + 1>>, ln.rets),
+        Chk(ln.phase < 4 \/ ln.rets[1] = 0, "C04.progress", 0, <<ln.rets[1], ln.errs[1]>>),
+        \* C01: the message arrives whole, the reply is accepted, the close is seen after it
+        Chk(ln.phase < 4 \/ ln.rets[1] # 0 \/ ln.rets[2] = 4, "C01.len", 4, <<ln.rets[2], ln.errs[2]>>),
+        Chk(ln.phase < 4 \/ ln.rets[1] # 0 \/ ln.rets[3] = (IF stream THEN 4 ELSE 0), "C03.size", 0, <<ln.rets[3], ln.errs[3]>>),
+        Chk(ln.phase < 4 \/ ln.rets[1] # 0 \/ ln.rets[4] = 0, "C06.drain", 0, <<ln.rets[4], ln.errs[4]>>),
+        Chk(ln.phase < 4 \/ ln.cexit = 0, "C04.progress", 0, ln.cexit)
+      >>
+  IN /\ Report(ln, cs)
+     /\ nv' = nv + Len(Failed(cs))
+     /\ UNCHANGED <<tp, scen, up, srvc, terr>>
+
 Next ==
   /\ l <= NL
   /\ l' = l + 1
@@ -115,6 +133,7 @@ Next ==
      CASE ln.op = "X" -> tp' = ln.tp /\ scen' = ln.scen /\ up' = ln.up /\ srvc' = FALSE /\ terr' = <<0, 0, 0>> /\ nv' = nv
        [] ln.op \in ApiOps -> StepApi(ln)
        [] ln.op = "q" -> StepQ(ln)
+       [] ln.op = "bq" -> StepBq(ln)
        [] ln.op = "crash" -> PrintT(<<"@V", ln.x, ln.n, "CRASH", 0, ln.why>>) /\ nv' = nv + 1 /\ UNCHANGED <<tp, scen, up, srvc, terr>>
        [] OTHER -> UNCHANGED <<tp, scen, up, srvc, terr, nv>>
 
